@@ -117,8 +117,8 @@ func main() {
 		}
 		gsx.Explore(c, gsx.Config{
 			Scenario: s.name, Bound: s.bound, MaxSteps: 20000,
-			Deadline: c.Deadline(4*time.Minute, 25*time.Minute),
-			Body:     body,
+			Deadline:      c.Deadline(4*time.Minute, 25*time.Minute),
+			Body:          body,
 			AllowDeadlock: true,
 			AllowLeftover: true,
 			Check: func(e vrt.Exec) (key, what, outcome string) {
